@@ -66,6 +66,42 @@ func atomise(b *ssa.BasicBlock, rules []atomRule, ignore func(string) bool) []st
 	return out
 }
 
+// atomiseFacts is atomise over rendered facts ("sig" / "!sig"), as produced by fw.DeepFacts.
+func atomiseFacts(facts []string, rules []atomRule, ignore func(string) bool) []string {
+	var out []string
+	seen := map[string]bool{}
+	for _, f := range facts {
+		taken := !strings.HasPrefix(f, "!")
+		s := strings.TrimPrefix(f, "!")
+		if ignore != nil && ignore(s) {
+			continue
+		}
+		name := ""
+		for _, r := range rules {
+			if neg, ok := r.match(s); ok {
+				t := taken
+				if neg {
+					t = !t
+				}
+				name = r.name
+				if !t {
+					name = "!" + name
+				}
+				break
+			}
+		}
+		if name == "" {
+			name = "OTHER:" + f
+		}
+		if !seen[name] {
+			seen[name] = true
+			out = append(out, name)
+		}
+	}
+	sort.Strings(out)
+	return out
+}
+
 func eqAtom(name string, subs ...string) atomRule {
 	return atomRule{name: name, match: func(s string) (bool, bool) {
 		if containsAll(s, subs...) && strings.Contains(s, " == ") {
@@ -117,22 +153,49 @@ func checkC06(c *fw.Ctx) {
 		key   string
 		atoms string
 	}
-	classify := func(k string) string {
+	// classify: which row of the table a key belongs to (by the call that produces it), and
+	// whether its operands are the ones the row prescribes
+	classify2 := func(k string) (string, bool) {
 		switch {
-		case containsAll(k, "UserID).Domain(", "param:userIDForSender)(", ".SenderID(param:e)"):
-			return "sender's server"
-		case containsAll(k, "gmsl.SplitID(36,", ".EventID(param:e)", "#1"):
-			return "event-ID server"
-		case containsAll(k, "gmsl.SplitID(64,", ".StateKey(param:e)", "#1"):
-			return "invitee's server"
-		case containsAll(k, ".RestrictedJoinServername(", ".Content(param:e)", "#0"):
-			return "authorising server"
+		case strings.Contains(k, "UserID).Domain(") && strings.Contains(k, "param:userIDForSender)("):
+			return "sender's server", strings.Contains(k, ".SenderID(param:e)")
+		case strings.Contains(k, "gmsl.SplitID(36,") && strings.HasSuffix(k, "#1"):
+			return "event-ID server", strings.Contains(k, ".EventID(param:e)")
+		case strings.Contains(k, "gmsl.SplitID(64,") && strings.HasSuffix(k, "#1"):
+			return "invitee's server", strings.Contains(k, ".StateKey(param:e)")
+		case strings.Contains(k, ".RestrictedJoinServername(") && strings.HasSuffix(k, "#0"):
+			return "authorising server", strings.Contains(k, ".Content(param:e)")
 		case strings.HasSuffix(k, ".SenderID(param:e)") && !strings.Contains(k, "Domain"):
-			return "sender key (pseudo-ID)"
+			return "sender key (pseudo-ID)", true
 		case strings.HasSuffix(k, ".StateKey(param:e)") && !strings.Contains(k, "SplitID"):
-			return "invitee key (pseudo-ID)"
+			return "invitee key (pseudo-ID)", true
 		}
-		return "UNRECOGNISED:" + k
+		return "UNRECOGNISED:" + k, false
+	}
+	// atoms that follow from others (membership values exclude each other)
+	implied := map[string][]string{"INVITE": {"!JOIN"}, "JOIN": {"!INVITE"}}
+	sameAtoms := func(got []string, exp string) bool {
+		want := map[string]bool{}
+		for _, a := range strings.Split(exp, ",") {
+			want[a] = true
+		}
+		free := map[string]bool{}
+		for a := range want {
+			for _, i := range implied[a] {
+				free[i] = true
+			}
+		}
+		seen := map[string]bool{}
+		for _, a := range got {
+			if want[a] {
+				seen[a] = true
+				continue
+			}
+			if !free[a] {
+				return false
+			}
+		}
+		return len(seen) == len(want)
 	}
 	want := map[string]string{
 		"sender's server":         "!PSEUDO,SENDER_KNOWN",
@@ -143,32 +206,44 @@ func checkC06(c *fw.Ctx) {
 		"invitee key (pseudo-ID)": "INVITE,MEMBER,PSEUDO",
 	}
 	got := map[string][]string{}
-	nUpd := 0
-	for _, b := range fn.Blocks {
-		for _, ins := range b.Instrs {
-			mu, ok := ins.(*ssa.MapUpdate)
-			if !ok || !strings.Contains(fw.Short(mu.Map.Type().String()), "map[gmsl/spec.ServerName]struct{}") {
-				continue
-			}
-			nUpd++
-			cls := classify(fw.Sig(mu.Key))
-			atoms := strings.Join(atomise(b, rules, ignore), ",")
-			got[cls] = append(got[cls], atoms)
-			exp, known := want[cls]
-			construct := "required signer: " + cls
-			if !known {
-				c.Fail("1 needed-table", construct, c.P.Pos(fw.InstrPos(mu)), "a server is added to the required-signer set whose provenance matches no row of the specification's table")
-				continue
-			}
-			c.Check(atoms == exp, "1 needed-table", construct, c.P.Pos(fw.InstrPos(mu)), "when {"+atoms+"}", fmt.Sprintf("the %s is required when {%s}; the specification requires it exactly when {%s}", cls, atoms, exp))
+	nUpd, nOther := 0, 0
+	stopMapping0 := func(f *ssa.Function) bool { return fw.FuncName(f) == "gmsl.validateMXIDMappingSignatures" }
+	for _, di := range fw.DeepInstrs(fn, stopMapping0) {
+		mu, ok := di.Instr.(*ssa.MapUpdate)
+		if !ok || !strings.Contains(fw.Short(mu.Map.Type().Underlying().String()), "map[gmsl/spec.ServerName]struct{}") {
+			continue
 		}
+		nUpd++
+		cls, okOperands := classify2(fw.SigIn(di.Fr, mu.Key))
+		atomList := atomiseFacts(fw.DeepFacts(di.Fr, mu.Block()), rules, ignore)
+		atoms := strings.Join(atomList, ",")
+		exp, known := want[cls]
+		construct := "required signer: " + cls
+		if !known {
+			// a key whose provenance is not recognised: the rule cannot tell what it is
+			nOther++
+			c.Undecided("1 needed-table", construct, "a server is added to the required-signer set whose provenance matches no row of the specification's table")
+			continue
+		}
+		got[cls] = append(got[cls], atoms)
+		if strings.Contains(atoms, "OTHER:") {
+			c.Undecided("1 needed-table", construct, "added under a condition the rule does not know: {"+atoms+"}")
+			continue
+		}
+		if !okOperands {
+			c.Fail("1 needed-table", construct, c.P.Pos(fw.InstrPos(mu)), "the "+cls+" is computed from "+fw.SigIn(di.Fr, mu.Key)+", not from the event field the specification names")
+			continue
+		}
+		c.Check(sameAtoms(atomList, exp), "1 needed-table", construct, c.P.Pos(fw.InstrPos(mu)), "when {"+atoms+"}", fmt.Sprintf("the %s is required when {%s}; the specification requires it exactly when {%s}", cls, atoms, exp))
 	}
 	c.Min("1 needed-table insertions", nUpd, 6)
 	for cls := range want {
 		if len(got[cls]) == 0 {
-			c.Fail("1 needed-table", "required signer: "+cls, c.P.Pos(fn.Pos()), "the "+cls+" is never added to the required-signer set")
-		} else if len(got[cls]) > 1 {
-			c.Fail("1 needed-table", "required signer: "+cls+" (single site)", c.P.Pos(fn.Pos()), fmt.Sprintf("added at %d sites; the table is no longer a function of the atoms", len(got[cls])))
+			if nOther > 0 || nUpd == 0 {
+				c.Undecided("1 needed-table", "required signer: "+cls, "not found among the recognised insertions (some insertions were not recognised)")
+			} else {
+				c.Fail("1 needed-table", "required signer: "+cls, c.P.Pos(fn.Pos()), "the "+cls+" is never added to the required-signer set")
+			}
 		}
 	}
 
@@ -268,6 +343,8 @@ func checkC06(c *fw.Ctx) {
 	// 3c. what a nil result of the key ring means (shared with C12.1): a request is marked
 	// verified only behind key present, key valid at the time, VerifyJSON nil
 	checkUsingKeysRule(c)
+	checkSelfVerifier(c)
+	checkFetchedOverwrite(c)
 
 	// 4. version columns + wrappers
 	checkVersionMatrix(c, "4 version-columns", setOf("signatureValidityCheckFunc", "restrictedJoinServernameFunc", "eventIDFormat"))
@@ -319,7 +396,7 @@ func checkAllResults(c *fw.Ctx, rule string, fn *ssa.Function, name string) {
 		}
 	}
 	if site == nil {
-		c.Fail(rule, construct, c.P.Pos(fn.Pos()), "no test of result.Error for the elements of the VerifyJSONs result")
+		c.Undecided(rule, construct, "no test of result.Error for the elements of the VerifyJSONs result was recognised in "+fw.FuncName(fn))
 		return
 	}
 	v, trueMeansNil, _ := fw.NilCheck(site.Cond)
@@ -348,7 +425,7 @@ func checkAllResults(c *fw.Ctx, rule string, fn *ssa.Function, name string) {
 		}
 	}
 	if header == nil {
-		c.Fail(rule, construct, c.P.Pos(fw.InstrPos(site)), "the result check is not inside a loop over all results")
+		c.Undecided(rule, construct, "the result check was not recognised as being inside a loop over all results")
 		return
 	}
 	// remove the header's exit edge: no success return may remain reachable
